@@ -84,6 +84,10 @@ Definition gen_km (fty : string) (not_null : bool) (latl latr lngl lngr : expr) 
     EAnd (EParen (EAnd (EAnd (EAnd (ENot (EIsNull latr)) (ENot (EIsNull latl))) (ENot (EIsNull lngl))) (ENot (EIsNull lngr)))) d
   else d.
 
+(* PairwiseStringDistanceFunctionLevel: most similar pair of the two arrays *)
+Definition gen_pairwise (f : string) (higher_is_more_similar : bool) (cl cr : expr) (t : val) : expr :=
+  ECmp (if higher_is_more_similar then CGe else CLe) (EPairwise higher_is_more_similar f cl cr) (ELit t).
+
 (* composition creators: "(" sql_1 ") AND (" sql_2 ") AND ..." parses left-associated *)
 Definition gen_merge (mk : expr -> expr -> expr) (es : list expr) : expr :=
   match es with
@@ -141,6 +145,42 @@ End Lev.
 
 Definition lev (a b : string) : nat :=
   lev_list Ascii.eqb (list_ascii_of_string a) (list_ascii_of_string b).
+
+(* Damerau-Levenshtein distance, unrestricted (adjacent transpositions, then further edits allowed:
+   dl "ca" "abc" = 2), Lowrance-Wagner dynamic programme.  rows = rows 0 .. i-1 of the table,
+   row i' = [d(i',0); ..; d(i',|b|)].  Both DuckDB `damerau_levenshtein` and rapidfuzz
+   DamerauLevenshtein.distance implement this variant (established by the correspondence run). *)
+Fixpoint last_idx (c : ascii) (l : list ascii) (pos acc : nat) : nat :=
+  match l with
+  | [] => acc
+  | x :: t => last_idx c t (S pos) (if Ascii.eqb c x then pos else acc)
+  end.
+Fixpoint dl_cells (rows : list (list nat)) (prev : list nat) (apre : list ascii) (ai : ascii) (i : nat)
+         (bpre brest : list ascii) (j left : nat) : list nat :=
+  match brest with
+  | [] => []
+  | bj :: t =>
+    let diag := nth (j - 1) prev 0 in
+    let up := nth j prev 0 in
+    let cost := if Ascii.eqb ai bj then 0 else 1 in
+    let k := last_idx bj apre 1 0 in        (* last row < i whose character is b_j *)
+    let l := last_idx ai bpre 1 0 in        (* last column < j whose character is a_i *)
+    let base := Nat.min (Nat.min (diag + cost) (S left)) (S up) in
+    let v := if (Nat.eqb k 0 || Nat.eqb l 0)%bool then base
+             else Nat.min base (nth (l - 1) (nth (k - 1) rows []) 0 + (i - k - 1) + 1 + (j - l - 1)) in
+    v :: dl_cells rows prev apre ai i (bpre ++ [bj]) t (S j) v
+  end.
+Fixpoint dl_rows (rows : list (list nat)) (apre arest b : list ascii) (i : nat) : list (list nat) :=
+  match arest with
+  | [] => rows
+  | ai :: t =>
+    let prev := last rows [] in
+    let row := i :: dl_cells rows prev apre ai i [] b 1 i in
+    dl_rows (rows ++ [row]) (apre ++ [ai]) t b (S i)
+  end.
+Definition dam_lev_list (a b : list ascii) : nat :=
+  last (last (dl_rows [seq 0 (S (length b))] [] a b 1) []) 0.
+Definition dam_lev (a b : string) : nat := dam_lev_list (list_ascii_of_string a) (list_ascii_of_string b).
 
 (* Jaccard similarity of the character sets (DuckDB `jaccard`) *)
 Definition mem_ascii (c : ascii) (l : list ascii) : bool := existsb (Ascii.eqb c) l.
@@ -243,6 +283,7 @@ Definition builtin (f : string) (args : list val) : option val :=
   if existsb is_null args then Some VNull else
   match f, args with
   | "levenshtein", [VStr a; VStr b] => Some (qnat (lev a b))
+  | "damerau_levenshtein", [VStr a; VStr b] => Some (qnat (dam_lev a b))
   | "jaccard", [VStr a; VStr b] => Some (VNum (jaccard a b))
   | "jaro_similarity", [VStr a; VStr b] => Some (VNum (jaro a b))
   | "jaro_sim", [VStr a; VStr b] => Some (VNum (jaro a b))
